@@ -26,6 +26,10 @@ CORE = [
 ]
 
 CXX = "clang++"
+# the tsan variant is built with g++: clang 14's ThreadSanitizer runtime silently drops a race whose earlier access it cannot find in the
+# thread's (bounded) event trace any more - exactly the interpreter's situation, which runs for a whole timer period without a single
+# synchronisation event - while gcc 12's libtsan reports it (seed C11-7; harness-free reproduction in DESIGN.md, C11)
+VARIANT_CXX = {"tsan": "g++"}
 COMMON = ["-std=c++20", "-DBLOCH_VERIF_HOOKS", "-g", "-fno-omit-frame-pointer", "-pthread"]
 VARIANTS = {
     "asan": ["-O1", "-fsanitize=address,undefined", "-fno-sanitize-recover=null,bounds,vptr,alignment,object-size,unreachable,return,integer-divide-by-zero"],
@@ -95,6 +99,7 @@ def ensure(variant, targets):
     content of the .cpp, of every header under /repo/src (and harness headers for harness TUs) and the flags, so
     a check always runs objects compiled from /repo's current working tree."""
     flags = COMMON + VARIANTS[variant]
+    cxx = VARIANT_CXX.get(variant, CXX)
     os.makedirs(BUILD, exist_ok=True)
     lock = open(os.path.join(BUILD, ".lock"), "w")
     fcntl.flock(lock, fcntl.LOCK_EX)
@@ -115,9 +120,11 @@ def ensure(variant, targets):
             h.update(hdr.encode())
             h.update(extra_key.encode())
             h.update(" ".join(fl).encode())
+            if cxx != CXX:
+                h.update(cxx.encode())
             o = os.path.join(objdir, os.path.basename(path)[:-4] + "-" + h.hexdigest()[:16] + ".o")
             if not os.path.exists(o) and not any(j[-1] == o + ".tmp" for j in jobs):
-                jobs.append([CXX] + fl + ["-c", path, "-o", o + ".tmp"])
+                jobs.append([cxx] + fl + ["-c", path, "-o", o + ".tmp"])
             else:
                 if os.path.exists(o):
                     os.utime(o, None)
@@ -153,7 +160,7 @@ def ensure(variant, targets):
                 os.rename(c[-1], c[-1][:-4])
             sys.stderr.write("[vbuild] %s: compiled %d TUs in %.1fs\n" % (variant, len(jobs), time.time() - t0))
         for exe, allobjs in links:
-            cmd = [CXX] + flags + allobjs + ["-o", exe + ".tmp"] + (["-lcrypto"] if "upd_mc" in exe else []) + (["-rdynamic", "-ldl"] if "gcthread_mc" in exe else [])
+            cmd = [cxx] + flags + allobjs + ["-o", exe + ".tmp"] + (["-lcrypto"] if "upd_mc" in exe else []) + (["-rdynamic", "-ldl"] if "gcthread_mc" in exe else [])
             _sh(cmd, None)
             os.rename(exe + ".tmp", exe)
         # prune: keep the 60 most recently used objects / 40 executables per variant
